@@ -76,7 +76,7 @@ theorem written_rows_wireWF (cls : StreamClass) (o : SerOptions) (s : Stream) (s
   exact ((run_wfr cls o s stmts hs hp hl hd).1.1 f hf).1 r hr
 
 /-- The composition shared by all stream classes and both framings. -/
-private theorem bytes_core (cls : StreamClass) (o : SerOptions) (s : Stream) (stmts : List (List Term))
+theorem bytes_core (cls : StreamClass) (o : SerOptions) (s : Stream) (stmts : List (List Term))
     (evs : List Event)
     (hs : Stream.new cls o = .ok s) (hl : validLogical s.logicalType = true)
     (hp : presetReadable o.preset = true) (hd : ∀ t ∈ stmts, stmtShallow t = true)
